@@ -196,7 +196,19 @@ def eval_subproc(case):
 
 def strat_peer():
     return st.tuples(st.one_of(gens.rated_peer(), gens.rated_peer(), gens.rated_peer(), gens.all_clean_peer()), st.sampled_from(['server', 'server', 'client']), st.one_of(st.none(), st.none(), gens.unknown_name(12).filter(lambda s: not s.startswith('gss-')), gens.gss_name())).map(
-        lambda t: {'kind': 'peer', 'lists': dict(t[0], kex=t[0]['kex'] + ([t[2]] if t[2] else [])), 'role': t[1]})
+        lambda t: _cross({'kind': 'peer', 'lists': dict(t[0], kex=t[0]['kex'] + ([t[2]] if t[2] else [])), 'role': t[1]}))
+
+
+def _cross(case):
+    """Now and then the same name is advertised in two categories (each category rates it on its own)."""
+    L = case['lists']
+    h = sum(len(x) for v in L.values() for x in v)
+    if h % 4 == 0:
+        for name in (['none', 'AEAD_AES_128_GCM', 'chacha20-poly1305@openssh.com'][h % 3],):
+            for c in ('enc', 'mac'):
+                if name not in L[c]:
+                    L[c] = L[c] + [name]
+    return case
 
 
 def valid_case(case):
@@ -216,6 +228,11 @@ def run(ctx):
             names = sorted(rn[c])
             lists[c] = [names[(ctx.seed * 7 + i * 13 + j * 5) % len(names)] for j in range(1 + i % 3)]
         lists['kex'] = lists['kex'] + ['diffie-hellman-group-exchange-sha256']
+        if i % 2 == 0:
+            # several algorithms in every note that is built from a collection (Terrapin advisory, recommendations)
+            lists['kex'] = lists['kex'] + ['kex-strict-s-v00@openssh.com']
+            lists['enc'] = lists['enc'] + ['chacha20-poly1305@openssh.com', 'aes128-cbc', 'aes256-cbc', '3des-cbc']
+            lists['mac'] = lists['mac'] + ['hmac-sha2-256-etm@openssh.com', 'hmac-sha2-512-etm@openssh.com', 'umac-128-etm@openssh.com']
         lists['key'] = lists['key'] + ['ssh-rsa', 'ssh-ed25519']
         argv = [['-n'], ['-n', '-j'], ['-n', '-v'], ['-b'], ['-jj']][i % 5]
         sub.append({'kind': 'subproc', 'lists': {c: list(dict.fromkeys(l)) for c, l in lists.items()}, 'argv': argv, 'hashseeds': [0, 1, 2, 12345]})
